@@ -281,9 +281,7 @@ func execute(w workload, ch *mc.Chooser) *outcome {
 	conf := cache.LRU[int, int]().WithSize(func(v int) int64 { return int64(v) }).OnEvict(func(k, v int) {
 		if sched != nil {
 			t := sched.Cur()
-			if seamPoints {
-				t.Point() // the callback runs inside the operation
-			}
+			t.Point() // the callback is user code running inside the operation: a scheduling point
 			cbs[t.ID] = append(cbs[t.ID], ev{k, v})
 		}
 	})
